@@ -171,9 +171,15 @@ def check_proofs(fam, tier):
     """Build + token scan + axiom audit (+ leanchecker in the thorough tier)."""
     prop = fam.prop
     info = {"obligations": 0, "discharged": 0, "bad": [], "axioms_seen": [], "theorems": []}
-    mods = ["CtrlVerif.Props." + prop]
+    extra = list(getattr(fam, "extra_modules", []) or [])
+    mods = ["CtrlVerif.Props." + prop] + extra
+    pre = getattr(fam, "pre_build", None)
+    if pre is not None:
+        # regenerate model files from /repo's source text (DESIGN §2.5); a failed translation is
+        # a broken proof obligation
+        info["bad"].extend(pre())
     ok, log = leanproj.lake_build(mods + ["CtrlVerif.Driver.All"])
-    names = leanproj.theorems_of(prop)
+    names = leanproj.theorems_of(prop, extra)
     info["obligations"] = len(names)
     info["theorems"] = names
     if not ok:
@@ -182,7 +188,7 @@ def check_proofs(fam, tier):
     hits = leanproj.token_scan()
     if hits:
         info["bad"].append("forbidden tokens: " + "; ".join(hits[:5]))
-    a = leanproj.audit(prop)
+    a = leanproj.audit(prop, extra)
     seen = sorted({x for v in a["axioms"].values() for x in v})
     info["axioms_seen"] = seen
     info["bad"].extend(a["bad"])
